@@ -5,6 +5,7 @@
 package c01
 
 import (
+	"bytes"
 	"crypto/aes"
 	"crypto/cipher"
 	"crypto/hmac"
@@ -438,21 +439,24 @@ func (s *Spec) Build() (tink.AEAD, error) {
 		if s.Variant != "R" {
 			return nil, fmt.Errorf("subtle has no prefix")
 		}
+		// the constructors get a private copy of the key, overwritten after construction
+		kb := bytes.Clone(s.Key)
+		defer hx.Scribble(kb)
 		switch s.Scheme {
 		case "gcm":
-			return aeadsubtle.NewAESGCM(s.Key)
+			return aeadsubtle.NewAESGCM(kb)
 		case "siv":
-			return aeadsubtle.NewAESGCMSIV(s.Key)
+			return aeadsubtle.NewAESGCMSIV(kb)
 		case "chacha":
-			return aeadsubtle.NewChaCha20Poly1305(s.Key)
+			return aeadsubtle.NewChaCha20Poly1305(kb)
 		case "xchacha":
-			return aeadsubtle.NewXChaCha20Poly1305(s.Key)
+			return aeadsubtle.NewXChaCha20Poly1305(kb)
 		case "etm":
-			ctr, err := aeadsubtle.NewAESCTR(s.Key[:s.AESLen], s.IVSize)
+			ctr, err := aeadsubtle.NewAESCTR(kb[:s.AESLen], s.IVSize)
 			if err != nil {
 				return nil, err
 			}
-			mac, err := macsubtle.NewHMAC(strings.ToUpper(s.Hash), s.Key[s.AESLen:], uint32(s.TagSize))
+			mac, err := macsubtle.NewHMAC(strings.ToUpper(s.Hash), kb[s.AESLen:], uint32(s.TagSize))
 			if err != nil {
 				return nil, err
 			}
